@@ -6,6 +6,8 @@ import MpVerif.C10.Model
   class C                   ↦ `class C <classify C> <documented C> <candidate C>`
   table                     ↦ one `row FIRST LAST <description>` line per pre-registered entry, then `end-table`
   doctable                  ↦ the hand-written documented table, same format
+  markers CODE NOBJ FR ORIG KAPPA EXTRA NALTREPORTED ALTOBJ WARNINGS ↦ `markers … | <recognisable message pieces in order>`
+  addres CANREPLACE a:b a:b … ↦ `addres … | <resulting registry a:b…, new entries marked +>` or `error`
   extras CODE NOBJ FEASRELAX ORIGOBJ KAPPA RAYP RAYD IIS ↦ `extras … | <Extras>`
   report CODE NOBJ PR DU NALT STUB ↦ `report CODE NOBJ PR DU NALT STUB | <Report>`
 -/
@@ -53,6 +55,28 @@ def handle (out : IO.FS.Stream) (ws : List String) : IO Unit := do
                           kappaOpt := ka, rayPrimalOpt := rp, rayDualOpt := rd, iisOpt := ii }
       out.putStrLn s!"extras {c} {n} {b2s fr} {b2s og} {b2s ka} {b2s rp} {b2s rd} {b2s ii} | {(extras a).toStr}"
     | _, _, _, _, _, _, _, _ => out.putStrLn "bad-op"
+  | ["markers", c, n, fr, og, ka, ex, k, ao, w] =>
+    match c.toInt?, n.toNat?, parseBool fr, parseBool og, parseBool ka, parseBool ex, k.toNat?, parseBool ao, parseBool w with
+    | some c, some n, some fr, some og, some ka, some ex, some k, some ao, some w =>
+      let a : Answer := { code := c, nObj := n, hasPrimal := true, hasDual := true, feasrelax := fr, origObj := og, kappaOpt := ka,
+                          extraMsg := ex, nAlt := k, solStub := true, altObj := ao, hasWarnings := w }
+      out.putStrLn s!"markers {c} {n} {b2s fr} {b2s og} {b2s ka} {b2s ex} {k} {b2s ao} {b2s w} | {",".intercalate (msgMarkers a)}"
+    | _, _, _, _, _, _, _, _, _ => out.putStrLn "bad-op"
+  | "addres" :: cr :: toks =>
+    match parseBool cr with
+    | some cr =>
+      let ents := toks.filterMap (fun t => match t.splitOn ":" with
+        | [a, b] => match a.toInt?, b.toInt? with
+          | some a, some b => some (a, b)
+          | _, _ => none
+        | _ => none)
+      if ents.length != toks.length then out.putStrLn "bad-op" else
+      let sm : List RegRow := ents.map (fun e => (e.1, e.2, "new"))
+      let res := match addResults registry sm cr with
+        | none => " error"
+        | some reg => String.join (reg.map (fun (r : RegRow) => s!" {r.1}:{r.2.1}" ++ (if r.2.2 == "new" then "+" else "")))
+      out.putStrLn s!"addres {b2s cr}{String.join (toks.map (fun t => " " ++ t))} |{res}"
+    | none => out.putStrLn "bad-op"
   | _ => out.putStrLn "bad-op"
 
 partial def loop (h : IO.FS.Stream) (out : IO.FS.Stream) : IO Unit := do
